@@ -1,6 +1,438 @@
-//! C03 — not implemented yet.
+//! C03 — element (i,j) is row i, column j in every matrix API, whatever the layout.
+//!
+//! Programs (sequences of API calls) are run side by side on a row-major value, a column-major value
+//! and a model `[[Sym; N]; N]`; after every step both real values, read through their public fields,
+//! must equal the model, and every extracted observable must equal the model's.
+
+use num_traits::{One, Zero};
+use vek::mat::repr_c::column_major as cm;
+use vek::mat::repr_c::row_major as rm;
+use vek::vec::repr_c::{Vec2, Vec3, Vec4};
+use vkit::refmath as rf;
+use vkit::vk::{self, MatN};
 use vkit::*;
 
+#[derive(Clone, Copy, Debug)]
+enum St {
+    M2(rm::Mat2<Sym>, cm::Mat2<Sym>, [[Sym; 2]; 2]),
+    M3(rm::Mat3<Sym>, cm::Mat3<Sym>, [[Sym; 3]; 3]),
+    M4(rm::Mat4<Sym>, cm::Mat4<Sym>, [[Sym; 4]; 4]),
+}
+
+struct Fresh(u32);
+impl Fresh {
+    fn next(&mut self) -> Sym {
+        self.0 += 1;
+        Sym::atom(self.0)
+    }
+    fn mat<const N: usize>(&mut self) -> [[Sym; N]; N] {
+        let mut m = [[Sym::atom(0); N]; N];
+        for i in 0..N {
+            for j in 0..N {
+                m[i][j] = self.next();
+            }
+        }
+        m
+    }
+}
+
+fn flat_rows<const N: usize>(m: &[[Sym; N]; N]) -> Vec<Sym> {
+    let mut v = Vec::new();
+    for i in 0..N {
+        for j in 0..N {
+            v.push(m[i][j]);
+        }
+    }
+    v
+}
+fn flat_cols<const N: usize>(m: &[[Sym; N]; N]) -> Vec<Sym> {
+    let mut v = Vec::new();
+    for j in 0..N {
+        for i in 0..N {
+            v.push(m[i][j]);
+        }
+    }
+    v
+}
+fn display_model<T: std::fmt::Display, const N: usize>(m: &[[T; N]; N]) -> String {
+    // ( m00 ... m0j
+    //   ... ... ...
+    //   mi0 ... mij )
+    let mut s = String::from("(");
+    for i in 0..N {
+        if i > 0 {
+            s.push_str("\n ");
+        }
+        for j in 0..N {
+            s.push(' ');
+            s.push_str(&format!("{}", m[i][j]));
+        }
+    }
+    s.push_str(" )");
+    s
+}
+
+const N_OPS: usize = 24;
+const OP_NAMES: [&str; N_OPS] = [
+    "new", "index", "index_mut", "transposed", "transpose", "map", "map2", "apply", "apply2", "layout-swap", "resize", "row_array", "row_arrays",
+    "col_array", "col_arrays", "col_array->from_row_array", "row_arrays->from_col_arrays", "diagonal", "with_diagonal", "broadcast_diagonal",
+    "map_rows/map_cols", "slices+gl", "mut-slices", "display+counts",
+];
+
+macro_rules! same_size_step {
+    ($fname:ident, $N:expr, $Mat:ident, $Vec:ident, $va:path, $av:path, $new:expr) => {
+        #[allow(clippy::too_many_arguments)]
+        fn $fname(op: usize, t: &mut Tape, cx: &mut Cx, fresh: &mut Fresh, r: &mut rm::$Mat<Sym>, c: &mut cm::$Mat<Sym>, m: &mut [[Sym; $N]; $N]) -> CaseResult {
+            const N: usize = $N;
+            match op {
+                0 => {
+                    let a: [[Sym; N]; N] = fresh.mat();
+                    let (nr, nc): (rm::$Mat<Sym>, cm::$Mat<Sym>) = $new(&a);
+                    *r = nr;
+                    *c = nc;
+                    *m = a;
+                }
+                1 => {
+                    let (i, j) = (t.below(N), t.below(N));
+                    check_eq!(cx, r[(i, j)], m[i][j], "row-major m[({},{})]", i, j);
+                    check_eq!(cx, c[(i, j)], m[i][j], "col-major m[({},{})]", i, j);
+                }
+                2 => {
+                    let (i, j) = (t.below(N), t.below(N));
+                    let x = fresh.next();
+                    r[(i, j)] = x;
+                    c[(i, j)] = x;
+                    m[i][j] = x;
+                }
+                3 => {
+                    *r = r.transposed();
+                    *c = c.transposed();
+                    *m = rf::transpose(m);
+                }
+                4 => {
+                    r.transpose();
+                    c.transpose();
+                    *m = rf::transpose(m);
+                }
+                5 => {
+                    let tag = fresh.next();
+                    *r = r.map(|x| Sym::op2("f", tag, x));
+                    *c = c.map(|x| Sym::op2("f", tag, x));
+                    for i in 0..N { for j in 0..N { m[i][j] = Sym::op2("f", tag, m[i][j]); } }
+                }
+                6 | 8 => {
+                    let b: [[Sym; N]; N] = fresh.mat();
+                    let (br, bc) = (rm::$Mat::<Sym>::from_arr(&b), cm::$Mat::<Sym>::from_arr(&b));
+                    if op == 6 {
+                        *r = r.map2(br, |x, y| Sym::op2("g", x, y));
+                        *c = c.map2(bc, |x, y| Sym::op2("g", x, y));
+                    } else {
+                        r.apply2(br, |x, y| Sym::op2("g", x, y));
+                        c.apply2(bc, |x, y| Sym::op2("g", x, y));
+                    }
+                    for i in 0..N { for j in 0..N { m[i][j] = Sym::op2("g", m[i][j], b[i][j]); } }
+                }
+                7 => {
+                    let tag = fresh.next();
+                    r.apply(|x| Sym::op2("h", tag, x));
+                    c.apply(|x| Sym::op2("h", tag, x));
+                    for i in 0..N { for j in 0..N { m[i][j] = Sym::op2("h", tag, m[i][j]); } }
+                }
+                9 => {
+                    // layout conversion, crossing over: the new row-major value comes from the old column-major one
+                    let nr = rm::$Mat::<Sym>::from(*c);
+                    let nc = cm::$Mat::<Sym>::from(*r);
+                    *r = nr;
+                    *c = nc;
+                }
+                11 => {
+                    let (ar, ac) = (r.into_row_array(), c.into_row_array());
+                    check_eq!(cx, ar.to_vec(), flat_rows(m), "row-major into_row_array");
+                    check_eq!(cx, ac.to_vec(), flat_rows(m), "col-major into_row_array");
+                    *r = rm::$Mat::from_row_array(ac);
+                    *c = cm::$Mat::from_row_array(ar);
+                }
+                12 => {
+                    let (ar, ac) = (r.into_row_arrays(), c.into_row_arrays());
+                    check_eq!(cx, ar, *m, "row-major into_row_arrays");
+                    check_eq!(cx, ac, *m, "col-major into_row_arrays");
+                    *r = rm::$Mat::from_row_arrays(ac);
+                    *c = cm::$Mat::from_row_arrays(ar);
+                }
+                13 => {
+                    let (ar, ac) = (r.into_col_array(), c.into_col_array());
+                    check_eq!(cx, ar.to_vec(), flat_cols(m), "row-major into_col_array");
+                    check_eq!(cx, ac.to_vec(), flat_cols(m), "col-major into_col_array");
+                    *r = rm::$Mat::from_col_array(ac);
+                    *c = cm::$Mat::from_col_array(ar);
+                }
+                14 => {
+                    let (ar, ac) = (r.into_col_arrays(), c.into_col_arrays());
+                    check_eq!(cx, ar, rf::transpose(m), "row-major into_col_arrays");
+                    check_eq!(cx, ac, rf::transpose(m), "col-major into_col_arrays");
+                    *r = rm::$Mat::from_col_arrays(ac);
+                    *c = cm::$Mat::from_col_arrays(ar);
+                }
+                15 => {
+                    // column array read back as a row array: the transpose
+                    let (ar, ac) = (r.into_col_array(), c.into_col_array());
+                    *r = rm::$Mat::from_row_array(ar);
+                    *c = cm::$Mat::from_row_array(ac);
+                    *m = rf::transpose(m);
+                }
+                16 => {
+                    let (ar, ac) = (r.into_row_arrays(), c.into_row_arrays());
+                    *r = rm::$Mat::from_col_arrays(ar);
+                    *c = cm::$Mat::from_col_arrays(ac);
+                    *m = rf::transpose(m);
+                }
+                17 => {
+                    let mut d = [Sym::atom(0); N];
+                    for i in 0..N { d[i] = m[i][i]; }
+                    check_eq!(cx, $av(&r.diagonal()), d, "row-major diagonal()");
+                    check_eq!(cx, $av(&c.diagonal()), d, "col-major diagonal()");
+                }
+                18 => {
+                    let mut d = [Sym::atom(0); N];
+                    for i in 0..N { d[i] = fresh.next(); }
+                    *r = rm::$Mat::with_diagonal($va(&d));
+                    *c = cm::$Mat::with_diagonal($va(&d));
+                    for i in 0..N { for j in 0..N { m[i][j] = if i == j { d[i] } else { Sym::zero() }; } }
+                }
+                19 => {
+                    let x = fresh.next();
+                    *r = rm::$Mat::broadcast_diagonal(x);
+                    *c = cm::$Mat::broadcast_diagonal(x);
+                    for i in 0..N { for j in 0..N { m[i][j] = if i == j { x } else { Sym::zero() }; } }
+                }
+                20 => {
+                    let tag = fresh.next();
+                    *r = r.map_rows(|row| row.map(|x| Sym::op2("k", tag, x)));
+                    *c = c.map_cols(|col| col.map(|x| Sym::op2("k", tag, x)));
+                    for i in 0..N { for j in 0..N { m[i][j] = Sym::op2("k", tag, m[i][j]); } }
+                }
+                21 => {
+                    check_eq!(cx, r.as_row_slice().to_vec(), flat_rows(m), "as_row_slice lists m[i][j] at i*n+j");
+                    check_eq!(cx, c.as_col_slice().to_vec(), flat_cols(m), "as_col_slice lists m[i][j] at j*n+i");
+                    // read the flat slices the way OpenGL would: column-major unless the transpose flag is set
+                    let gl = |data: &[Sym], transpose: bool| {
+                        let mut out = [[Sym::atom(0); N]; N];
+                        for i in 0..N { for j in 0..N { out[i][j] = if transpose { data[i * N + j] } else { data[j * N + i] }; } }
+                        out
+                    };
+                    check_eq!(cx, gl(r.as_row_slice(), r.gl_should_transpose()), *m, "row-major slice read with gl_should_transpose()");
+                    check_eq!(cx, gl(c.as_col_slice(), c.gl_should_transpose()), *m, "col-major slice read with gl_should_transpose()");
+                    check_eq!(cx, gl(r.as_row_slice(), rm::$Mat::<Sym>::GL_SHOULD_TRANSPOSE), *m, "row-major slice read with GL_SHOULD_TRANSPOSE");
+                    check_eq!(cx, gl(c.as_col_slice(), cm::$Mat::<Sym>::GL_SHOULD_TRANSPOSE), *m, "col-major slice read with GL_SHOULD_TRANSPOSE");
+                    check_eq!(cx, r.as_row_ptr(), r.as_row_slice().as_ptr(), "as_row_ptr");
+                    check_eq!(cx, c.as_col_ptr(), c.as_col_slice().as_ptr(), "as_col_ptr");
+                    check_eq!(cx, r.as_row_ptr() as usize, r as *const _ as usize, "row slice aliases the value");
+                    check_eq!(cx, c.as_col_ptr() as usize, c as *const _ as usize, "col slice aliases the value");
+                }
+                22 => {
+                    let k = t.below(N * N);
+                    let x = fresh.next();
+                    r.as_mut_row_slice()[k] = x;
+                    m[k / N][k % N] = x;
+                    // same abstract element in the column-major value lives at (k%N)*N + k/N
+                    c.as_mut_col_slice()[(k % N) * N + k / N] = x;
+                    check_eq!(cx, r.as_mut_row_ptr() as usize, r as *mut _ as usize, "mut row ptr aliases the value");
+                    check_eq!(cx, c.as_mut_col_ptr() as usize, c as *mut _ as usize, "mut col ptr aliases the value");
+                }
+                23 => {
+                    let want = display_model(m);
+                    check_eq!(cx, format!("{}", r), want, "row-major Display");
+                    check_eq!(cx, format!("{}", c), want, "col-major Display");
+                    check_eq!(cx, (r.row_count(), r.col_count(), rm::$Mat::<Sym>::ROW_COUNT, rm::$Mat::<Sym>::COL_COUNT), (N, N, N, N), "row-major counts");
+                    check_eq!(cx, (c.row_count(), c.col_count(), cm::$Mat::<Sym>::ROW_COUNT, cm::$Mat::<Sym>::COL_COUNT), (N, N, N, N), "col-major counts");
+                    check!(cx, r.is_packed() && c.is_packed(), "is_packed");
+                    let id: [[Sym; N]; N] = {
+                        let mut id = [[Sym::zero(); N]; N];
+                        for i in 0..N { id[i][i] = Sym::one(); }
+                        id
+                    };
+                    check_eq!(cx, <rm::$Mat<Sym> as Default>::default().to_arr(), id, "row-major Default is identity");
+                    check_eq!(cx, <cm::$Mat<Sym> as Default>::default().to_arr(), id, "col-major Default is identity");
+                }
+                _ => {}
+            }
+            Ok(())
+        }
+    };
+}
+
+fn new2(a: &[[Sym; 2]; 2]) -> (rm::Mat2<Sym>, cm::Mat2<Sym>) {
+    (rm::Mat2::new(a[0][0], a[0][1], a[1][0], a[1][1]), cm::Mat2::new(a[0][0], a[0][1], a[1][0], a[1][1]))
+}
+fn new3(a: &[[Sym; 3]; 3]) -> (rm::Mat3<Sym>, cm::Mat3<Sym>) {
+    (
+        rm::Mat3::new(a[0][0], a[0][1], a[0][2], a[1][0], a[1][1], a[1][2], a[2][0], a[2][1], a[2][2]),
+        cm::Mat3::new(a[0][0], a[0][1], a[0][2], a[1][0], a[1][1], a[1][2], a[2][0], a[2][1], a[2][2]),
+    )
+}
+fn new4(a: &[[Sym; 4]; 4]) -> (rm::Mat4<Sym>, cm::Mat4<Sym>) {
+    (
+        rm::Mat4::new(
+            a[0][0], a[0][1], a[0][2], a[0][3], a[1][0], a[1][1], a[1][2], a[1][3], a[2][0], a[2][1], a[2][2], a[2][3], a[3][0], a[3][1], a[3][2], a[3][3],
+        ),
+        cm::Mat4::new(
+            a[0][0], a[0][1], a[0][2], a[0][3], a[1][0], a[1][1], a[1][2], a[1][3], a[2][0], a[2][1], a[2][2], a[2][3], a[3][0], a[3][1], a[3][2], a[3][3],
+        ),
+    )
+}
+
+same_size_step!(step2, 2, Mat2, Vec2, vk::v2, vk::a2, new2);
+same_size_step!(step3, 3, Mat3, Vec3, vk::v3, vk::a3, new3);
+same_size_step!(step4, 4, Mat4, Vec4, vk::v4, vk::a4, new4);
+
+/// Model of a size conversion: keep the common upper-left block, fill the rest from the identity.
+fn resize_model<const A: usize, const B: usize>(m: &[[Sym; A]; A]) -> [[Sym; B]; B] {
+    let mut out = [[Sym::zero(); B]; B];
+    for i in 0..B {
+        for j in 0..B {
+            out[i][j] = if i < A && j < A { m[i][j] } else if i == j { Sym::one() } else { Sym::zero() };
+        }
+    }
+    out
+}
+
+fn resize(st: St, target: usize) -> St {
+    match (st, target) {
+        (St::M2(r, c, m), 3) => St::M3(rm::Mat3::from(r), cm::Mat3::from(c), resize_model(&m)),
+        (St::M2(r, c, m), 4) => St::M4(rm::Mat4::from(r), cm::Mat4::from(c), resize_model(&m)),
+        (St::M3(r, c, m), 2) => St::M2(rm::Mat2::from(r), cm::Mat2::from(c), resize_model(&m)),
+        (St::M3(r, c, m), 4) => St::M4(rm::Mat4::from(r), cm::Mat4::from(c), resize_model(&m)),
+        (St::M4(r, c, m), 2) => St::M2(rm::Mat2::from(r), cm::Mat2::from(c), resize_model(&m)),
+        (St::M4(r, c, m), 3) => St::M3(rm::Mat3::from(r), cm::Mat3::from(c), resize_model(&m)),
+        (s, _) => s,
+    }
+}
+
+fn agree(cx: &mut Cx, st: &St, after: &str, step: usize) -> CaseResult {
+    match st {
+        St::M2(r, c, m) => {
+            check_eq!(cx, r.to_arr(), *m, "row-major value after step {} ({})", step, after);
+            check_eq!(cx, c.to_arr(), *m, "col-major value after step {} ({})", step, after);
+        }
+        St::M3(r, c, m) => {
+            check_eq!(cx, r.to_arr(), *m, "row-major value after step {} ({})", step, after);
+            check_eq!(cx, c.to_arr(), *m, "col-major value after step {} ({})", step, after);
+        }
+        St::M4(r, c, m) => {
+            check_eq!(cx, r.to_arr(), *m, "row-major value after step {} ({})", step, after);
+            check_eq!(cx, c.to_arr(), *m, "col-major value after step {} ({})", step, after);
+        }
+    }
+    Ok(())
+}
+
+fn programs(t: &mut Tape, cx: &mut Cx) -> CaseResult {
+    let mut fresh = Fresh(0);
+    let n0 = 2 + t.below(3);
+    let mut st = match n0 {
+        2 => {
+            let a = fresh.mat::<2>();
+            let (r, c) = new2(&a);
+            St::M2(r, c, a)
+        }
+        3 => {
+            let a = fresh.mat::<3>();
+            let (r, c) = new3(&a);
+            St::M3(r, c, a)
+        }
+        _ => {
+            let a = fresh.mat::<4>();
+            let (r, c) = new4(&a);
+            St::M4(r, c, a)
+        }
+    };
+    agree(cx, &st, "new", 0)?;
+    let len = t.below(13);
+    let mut trace: Vec<&'static str> = Vec::new();
+    for step in 1..=len {
+        let op = t.below(N_OPS);
+        trace.push(OP_NAMES[op]);
+        cx.label(OP_NAMES[op]);
+        if op == 10 {
+            let target = 2 + t.below(3);
+            st = resize(st, target);
+        } else {
+            match &mut st {
+                St::M2(r, c, m) => step2(op, t, cx, &mut fresh, r, c, m)?,
+                St::M3(r, c, m) => step3(op, t, cx, &mut fresh, r, c, m)?,
+                St::M4(r, c, m) => step4(op, t, cx, &mut fresh, r, c, m)?,
+            }
+        }
+        agree(cx, &st, OP_NAMES[op], step)?;
+    }
+    cx.set_nontrivial(len >= 2);
+    sample!(cx, "start n={} program={:?}", n0, trace);
+    Ok(())
+}
+
+/// Numeric run: as_, numcast, trace, Display on integers; all six matrix types.
+fn numeric(t: &mut Tape, cx: &mut Cx) -> CaseResult {
+    macro_rules! run {
+        ($N:expr, $Mat:ident) => {{
+            const N: usize = $N;
+            let mut a = [[0i32; N]; N];
+            for i in 0..N { for j in 0..N { a[i][j] = t.int(-100, 100) as i32; } }
+            let (r, c) = (rm::$Mat::<i32>::from_arr(&a), cm::$Mat::<i32>::from_arr(&a));
+            let mut want_f = [[0f64; N]; N];
+            let mut want_l = [[0i64; N]; N];
+            let mut tr = 0i32;
+            for i in 0..N { for j in 0..N { want_f[i][j] = a[i][j] as f64; want_l[i][j] = a[i][j] as i64; } tr += a[i][i]; }
+            check_eq!(cx, r.as_::<f64>().to_arr(), want_f, "row-major as_");
+            check_eq!(cx, c.as_::<f64>().to_arr(), want_f, "col-major as_");
+            check_eq!(cx, r.numcast::<i64>().map(|m| m.to_arr()), Some(want_l), "row-major numcast");
+            check_eq!(cx, c.numcast::<i64>().map(|m| m.to_arr()), Some(want_l), "col-major numcast");
+            check_eq!(cx, r.trace(), tr, "row-major trace");
+            check_eq!(cx, c.trace(), tr, "col-major trace");
+            let want = display_model(&a);
+            check_eq!(cx, format!("{}", r), want, "row-major Display");
+            check_eq!(cx, format!("{}", c), want, "col-major Display");
+            // numcast fails as a whole when one element does not fit
+            let (i, j) = (t.below(N), t.below(N));
+            let mut b = a;
+            b[i][j] = 300;
+            check_eq!(cx, rm::$Mat::<i32>::from_arr(&b).numcast::<u8>().is_none(), true, "row-major numcast None");
+            check_eq!(cx, cm::$Mat::<i32>::from_arr(&b).numcast::<u8>().is_none(), true, "col-major numcast None");
+            let mut nz = 0;
+            for row in a.iter() { for x in row { if *x != 0 { nz += 1; } } }
+            cx.set_nontrivial(nz >= 3 && a != rf::transpose(&a));
+            sample!(cx, "n={} A={:?}", N, a);
+        }};
+    }
+    match t.below(3) {
+        0 => run!(2, Mat2),
+        1 => run!(3, Mat3),
+        _ => run!(4, Mat4),
+    }
+    Ok(())
+}
+
 pub fn property() -> Property {
-    Property { id: "C03", rule: "", assumptions: &[], checks: Vec::new(), max_discard_frac: 0.2 }
+    let checks = vec![
+        Check {
+            name: "programs-sym",
+            about: "random programs (0-12 steps over 24 operations: new, index, index_mut, transposed, transpose, map, map2, apply, apply2, layout conversion, size conversion, flat/nested row/col array round trips and cross pairs, diagonal, with_diagonal, broadcast_diagonal, map_rows/map_cols, slices + OpenGL transpose flag, mutable slices, Display/counts/Default) run side by side on a row-major and a column-major matrix of pairwise distinct opaque terms and on an array model",
+            kind: Kind::Tape { len: 96, quick: 400_000, thorough: 8_000_000, f: programs },
+        },
+        Check {
+            name: "numeric-i32",
+            about: "as_, numcast (incl. whole-cast failure), trace and Display on integer matrices, both layouts, against the array model",
+            kind: Kind::Tape { len: 40, quick: 100_000, thorough: 2_000_000, f: numeric },
+        },
+    ];
+    Property {
+        id: "C03",
+        rule: "a case is a generated program: start size in {2,3,4}, 0-12 steps chosen from 24 operations with generated arguments; elements are pairwise distinct opaque terms, so no matrix is ever symmetric and any (i,j)/(j,i) confusion is visible; non-trivial = at least 2 steps (numeric check: >= 3 non-zero entries and A != A^T); distinct = distinct consumed tape prefix",
+        assumptions: &[
+            "rustc and the proptest runner/shrinker are trusted",
+            "the public rows/cols fields are the ground truth: row-major rows.x is row 0, column-major cols.x is column 0",
+            "Display format taken from the doc comment: '( m00 .. m0j\\n  .. )' with single spaces",
+        ],
+        checks,
+        max_discard_frac: 0.05,
+    }
 }
